@@ -31,6 +31,7 @@ Definition no_lp (ts : list tok) : Prop := match ts with TK Klp :: _ => False | 
 
 Inductive Lev : nat -> list tok -> val -> list tok -> Prop :=
 | Lev_num : forall m ex x r, n_lit ops m ex = Some x -> Lev 6 (TNum m ex :: r) (VNum x) r
+| Lev_str : forall s r, Lev 6 (TStr s :: r) (VStr s) r
 | Lev_var : forall x v r, no_lp r -> var_value num ops e x = Ok v -> Lev 6 (TVar x :: r) v r
 | Lev_paren : forall r v r', Lev 0 r v (TK Krp :: r') -> Lev 6 (TK Klp :: r) v r'
 | Lev_neg : forall r x r', Lev 6 r (VNum x) r' -> Lev 6 (TK Kminus :: r) (VNum (n_neg ops x)) r'
@@ -87,6 +88,7 @@ Proof.
   apply LevLoop_ind; unfold evals_to, loops_to.
   - (* num *) intros m ex x r H. exists 1. intros f Hf. destruct f as [|f]; [lia|].
     rewrite level_S. simpl. rewrite H. reflexivity.
+  - (* str *) intros s r. exists 1. intros f Hf. destruct f as [|f]; [lia|]. rewrite level_S. reflexivity.
   - (* var *) intros x v r Hlp Hv. exists 1. intros f Hf. destruct f as [|f]; [lia|].
     rewrite level_S. simpl. unfold var_value in Hv.
     destruct r as [|t r]; [|destruct t as [| | | |k|]; try destruct k; simpl in Hlp; try contradiction];
@@ -173,6 +175,7 @@ Proof. destruct o; simpl; lia. Qed.
 Definition body (a : ex) : list tok :=
   match a with
   | ENum m ex => [TNum m ex]
+  | EStr s => [TStr s]
   | EVar x => [TVar x]
   | ENeg b => TK Kminus :: pr 6 b
   | ENot b => TK Knot :: pr 6 b
@@ -256,11 +259,13 @@ Proof. intros L a Ha HL. unfold top. replace (Nat.ltb (prec a) L) with false by 
 
 Theorem pr_correct : forall a, Good a.
 Proof.
-  induction a as [m ex | x | b IHb | b IHb | k b IHb | o x IHx y IHy]; apply paren_lift;
+  induction a as [m ex | s | x | b IHb | b IHb | k b IHb | o x IHx y IHy]; apply paren_lift;
     intros v Hv L rest v' rest' HL Hlp Hnf Hc.
   - (* num *) rewrite atom_top in Hc by (simpl; auto). eapply lev_climb; [exact Hc|].
     simpl in Hv. destruct (n_lit ops m ex) eqn:El; simpl in Hv; try discriminate. inversion Hv; subst.
     simpl. apply Lev_num. assumption.
+  - (* str *) rewrite atom_top in Hc by (simpl; auto). eapply lev_climb; [exact Hc|].
+    simpl in Hv. inversion Hv; subst. simpl. apply Lev_str.
   - (* var *) rewrite atom_top in Hc by (simpl; auto). eapply lev_climb; [exact Hc|].
     simpl in Hv. simpl. apply Lev_var; assumption.
   - (* neg *) rewrite atom_top in Hc by (simpl; auto). eapply lev_climb; [exact Hc|].
